@@ -76,6 +76,7 @@ type trTranslator struct {
 	decls    map[*trUnit][]string
 	declSeen map[types.Object]bool
 	imports  map[*trUnit]map[*trUnit]bool
+	omitted  map[types.Object]map[string]bool // struct type → fields left out (untranslatable types)
 }
 
 func (t *trTranslator) leanNS(u *trUnit) string {
@@ -103,7 +104,15 @@ func (t *trTranslator) unitOfPkg(p *types.Package) *trUnit {
 
 // ---------------------------------------------------------------------------------------------- types
 
+func trIsRune(ty types.Type) bool {
+	b, ok := ty.(*types.Basic)
+	return ok && (b.Name() == "rune" || b.Kind() == types.UntypedRune)
+}
+
 func trIsIntKind(b *types.Basic) bool {
+	if b.Name() == "rune" || b.Kind() == types.UntypedRune {
+		return false // a rune is a Char: compared, tested and written, never computed with
+	}
 	switch b.Kind() {
 	case types.Int, types.Int64, types.Int32, types.UntypedInt:
 		return true
@@ -158,6 +167,8 @@ func (t *trTranslator) leanType(from *trUnit, ty types.Type, pos token.Pos) stri
 	switch x := ty.(type) {
 	case *types.Basic:
 		switch {
+		case trIsRune(x):
+			return "Char"
 		case trIsIntKind(x):
 			return "Int"
 		case x.Kind() == types.Bool || x.Kind() == types.UntypedBool:
@@ -172,6 +183,9 @@ func (t *trTranslator) leanType(from *trUnit, ty types.Type, pos token.Pos) stri
 		}
 		if op, ok := trOpaque[x.Obj().Pkg().Path()+"."+x.Obj().Name()]; ok {
 			return op
+		}
+		if x.Obj().Pkg().Path() == "strings" && x.Obj().Name() == "Builder" {
+			return "String" // the text written so far
 		}
 		if x.Obj().Pkg().Path() == "time" && trIsInt(x) {
 			return "Int" // time.Month, time.Weekday
@@ -318,6 +332,33 @@ func (t *trTranslator) checkPinned(f *types.Func, pos token.Pos) {
 // equality is equality of names: the Lean side uses the name.
 var trOpaque = map[string]string{}
 
+func trJoinLines(ls []string) string {
+	if len(ls) == 0 {
+		return ""
+	}
+	return strings.Join(ls, "\n") + "\n"
+}
+
+func (t *trTranslator) structObj(ty types.Type) types.Object {
+	if p, ok := ty.Underlying().(*types.Pointer); ok {
+		ty = p.Elem()
+	}
+	if n, ok := ty.(*types.Named); ok {
+		return n.Origin().Obj()
+	}
+	return nil
+}
+
+func (t *trTranslator) fieldOmitted(ty types.Type, field string) bool {
+	o := t.structObj(ty)
+	return o != nil && t.omitted[o][field]
+}
+
+func (t *trTranslator) hasOmitted(ty types.Type) bool {
+	o := t.structObj(ty)
+	return o != nil && len(t.omitted[o]) > 0
+}
+
 // needType emits the Lean declaration of a named knut type (and, for named ints, of its constants).
 func (t *trTranslator) needType(u *trUnit, n *types.Named, pos token.Pos) {
 	obj := n.Obj()
@@ -368,12 +409,40 @@ func (t *trTranslator) needType(u *trUnit, n *types.Named, pos token.Pos) {
 			if f.Embedded() {
 				trFail(f.Pos(), "embedded field %s is outside the subset", f.Name())
 			}
-			ft := t.leanType(u, f.Type(), f.Pos())
+			// a field whose type is not translatable is OMITTED (fields are independent); using it, or comparing the struct, is rejected
+			ft := ""
+			func() {
+				defer func() {
+					if r := recover(); r != nil {
+						if _, ok := r.(trReject); !ok {
+							panic(r)
+						}
+						ft = ""
+					}
+				}()
+				ft = t.leanType(u, f.Type(), f.Pos())
+			}()
+			if ft == "" {
+				if t.omitted[obj] == nil {
+					t.omitted[obj] = map[string]bool{}
+				}
+				t.omitted[obj][f.Name()] = true
+				continue
+			}
 			fields = append(fields, fmt.Sprintf("  %s : %s", trMangle(f.Name()), ft))
 			zeros = append(zeros, fmt.Sprintf("%s := GoZero.zero", trMangle(f.Name())))
 		}
 		var b strings.Builder
-		fmt.Fprintf(&b, "/-- Go: `type %s struct` (%s) -/\nstructure %s where\n%s\n  deriving DecidableEq, Repr\n", obj.Name(), t.l.relPos(obj.Pos()), name, strings.Join(fields, "\n"))
+		note := ""
+		if len(t.omitted[obj]) > 0 {
+			var om []string
+			for k := range t.omitted[obj] {
+				om = append(om, k)
+			}
+			sort.Strings(om)
+			note = "; fields of untranslatable types omitted: " + strings.Join(om, ", ")
+		}
+		fmt.Fprintf(&b, "/-- Go: `type %s struct` (%s)%s -/\nstructure %s where\n%s  deriving DecidableEq, Repr\n", obj.Name(), t.l.relPos(obj.Pos()), note, name, trJoinLines(fields))
 		fmt.Fprintf(&b, "instance : GoZero %s := ⟨{ %s }⟩\n", name, strings.Join(zeros, ", "))
 		t.decls[u] = append(t.decls[u], b.String())
 	case *types.Slice, *types.Map:
